@@ -162,7 +162,7 @@ EmitEv ==
 CrashEv ==
   /\ Line.e = "crash"
   /\ SetDrift("process crashed")
-  /\ Check({<<"NoPanic", FALSE>>})
+  /\ Check({<<"NoPanic", Line.hang>>, <<"NeverWedged", ~Line.hang>>})
   /\ UNCHANGED <<vars, tid, mem, parts, olive, ostage>>
 
 EndEv == Line.e = "end" /\ PrintT(<<"END", ToJson([t |-> tid, drift |-> drift])>>) /\ UNCHANGED <<vars, tid, drift, viol, mem, parts, olive, ostage>>
